@@ -1,12 +1,17 @@
 """C07 - the tool always terminates with output or a diagnostic; it never panics or hangs.
-Proof (partial, front end only): Props/C07.v.  This check is the edge stream of DESIGN.md §11 C07:
-  (1) front end: libdrive `parse` (catch_unwind) against Model.Parse.parse_file, judged by the extracted
-      declarative predicate front_safe / leaf_safe (Spec/C07Spec.v);
+Proof (partial, front end only): Props/C07.v - since the /repo fixes of the front-end panic sites the front
+end is proved panic-free on EVERY input, and the edge inputs that used to panic are proved to be diagnosed.
+This check is the edge stream of DESIGN.md §11 C07:
+  (1) front end: libdrive `parse` (catch_unwind) against Model.Parse.parse_file; a panic of parser::parse is a
+      violation (no front-end finding is open any more); the extracted declarative predicate leaf_complete
+      (Spec/C07Spec.v) says which annotated items must be reported as errors, and the real parser must report them;
   (2) the real binary, every language, single-file (-o) and multi-file (-d) mode, under `timeout 10`,
       against the whole-pipeline model (`gen_src`): exit status, diagnostic, panic site;
   (3) file-system edges, the collector send race, configuration edges on the binary alone.
 A panic / hang / abort is tolerated only as a reproduction of an OPEN finding whose id is derived from
-the model's predicted panic site (or, outside the model, from the location printed on stderr)."""
+the model's predicted panic site (or, outside the model, from the location printed on stderr).  The witnesses
+of the findings FIXED in /repo (c07_cases.fixed_witness_cases) stay in the stream and must now end as stated
+there - with output, or with a diagnostic naming the file - in every language; anything else is a violation."""
 import concurrent.futures, difflib, json, os, pathlib, re, shutil, signal, subprocess, sys, time
 import vf, front, back
 import c07_cases
@@ -24,10 +29,7 @@ LANGS = [('typescript', 'typescript', 'ts', [], {}),
 LANG = {l[0]: l for l in LANGS}
 GRACE = 1.0          # seconds a process may live on after printing a panic message before it counts as hung
 FRONT_SITES = ('parser.rs', 'rust_types.rs', 'rename.rs')
-MSG = {'parser.rs:287': r'subtract with overflow|index out of bounds', 'parser.rs:445': r'Option::unwrap', 'parser.rs:737': r'UnsupportedLanguage',
-       'rust_types.rs:366': r'Option::unwrap', 'rust_types.rs:369': r'Option::unwrap', 'rust_types.rs:374': r'Option::unwrap',
-       'rust_types.rs:375': r'Option::unwrap', 'rust_types.rs:383': r'Option::unwrap', 'rename.rs:22': r'byte index 1',
-       'visitors.rs:401': r'base name not in use statement'}
+MSG = {'visitors.rs:401': r'base name not in use statement'}
 ENV = dict(vf.ENV, RUST_BACKTRACE='0')
 ENV.pop('RUST_LOG', None)
 PANIC_RE = re.compile(r"thread '([^']*)'(?: \(\d+\))? panicked at ([^\n:]+):(\d+):\d+:\n([^\n]*)")
@@ -81,15 +83,11 @@ def finding_id(site, stage, lang):
     """the stable id of the finding a model-predicted panic site belongs to"""
     if site == 'fuel':
         return 'C07-topsort-recursion'
-    if site == 'rename.rs:22' and stage == 'back':
-        return {'go': 'C07-go.rs:313', 'swift': 'C07-swift.rs:559'}.get(lang, f'C07-rename.rs:22-from-{lang}')
     return 'C07-' + site
 
 
 def stderr_finding_id(site):
     """for panics outside the model: id from the location printed on stderr"""
-    if site in ('parse.rs:133', 'parse.rs:138'):
-        return 'C07-parse.rs:133-send-race'
     return 'C07-' + site
 
 
@@ -255,7 +253,7 @@ def run(chk):
                 'cfg(target_os) with --target-os; (b) ~1000 hand-written edge files (annotations on every item kind, attributes that are not meta lists, nesting '
                 'depth 30-200 of types / modules / expressions, sizes to 3000 members, raw identifiers, generics, visibility, consts, enums without variants...); '
                 '(c) unparsable text with and without the #[typeshare marker; (d) multi-file mode with 28 `use` forms at 6 positions; (e) file-system and '
-                'configuration edges and the collector send race on the binary. Each source runs through libdrive parse + model + front_safe, and through the '
+                'configuration edges and the collector send race on the binary; (f) the witnesses of the findings fixed in /repo, every language. Each source runs through libdrive parse + model + leaf_complete, and through the '
                 'real binary under timeout 10 for the language configurations the model predicts a panic for plus rotating others (thorough: all 7). '
                 'non-trivial = distinct (source text, target-os, mode) edge inputs other than the baselines')
     chk.assumptions = ['syn is not modelled: the model receives the AST harness/libdrive/src/ast.rs (syn) produces from the same text',
@@ -264,7 +262,7 @@ def run(chk):
                        f'a process still alive {GRACE}s after printing a panic message is counted as hung (it is killed early instead of waiting for `timeout 10`); '
                        'a fixed sample of such cases is run with the full timeout and must end with exit status 124',
                        'stack exhaustion depends on the build profile (debug here) and thread stack size; the model has no stack',
-                       'the collector send race is schedule dependent: its absence in a run is not evidence of absence']
+                       'the collector send race (fixed in /repo) was schedule dependent: a regression may need several runs to show']
     chk.prepare(need_cli=True)
     if not chk.harness_ok or not chk.cli_ok:
         return
@@ -273,7 +271,8 @@ def run(chk):
     sm = SiteMap()
     if sm.base is None:
         chk.notes.append('git history of /repo not available: panic lines are compared without mapping to the root commit')
-    cases = (c07_cases.planted_cases(rng, 320 if quick else 4000) + c07_cases.edge_cases(rng, chk.tier) + c07_cases.unparsable_cases(rng, chk.tier))
+    cases = (c07_cases.fixed_witness_cases() + c07_cases.planted_cases(rng, 320 if quick else 4000) + c07_cases.edge_cases(rng, chk.tier)
+             + c07_cases.unparsable_cases(rng, chk.tier))
     for k, c in enumerate(cases):
         c['k'] = k
     corr = []          # good but model and implementation disagree
@@ -324,25 +323,34 @@ def run(chk):
             chk.nontrivial.add(('single', c['src'], tuple(c['tos'])))
         impl, model = c['front_impl'], c['front_model']
         j = jmap.get(c['k'])
-        fsafe = None if j is None else j[0] == 'true'
+        fcomplete = None if j is None else j[0] == 'true'
         leaves = [] if j is None else [(vf.unS(x[0]), x[1] == 'true', x[2], x[3]) for x in j[1]]
-        c['front_safe'] = fsafe
+        incomplete = [l for l in leaves if not l[1]]
+        c['front_complete'] = fcomplete
         payload = {'stage': 'front (libdrive parse vs Model.Parse.parse_file)', 'case': c['name'], 'desc': c['desc'], 'source': c['src'][:4000], 'target_os': c['tos'],
                    'impl': impl if impl[0] != 'ok' else ('ok', None if impl[1] is None else {'errors': impl[1]['errors']}),
                    'model': model if model is None or model[0] != 'ok' else ('ok', None if model[1] is None else {'errors': model[1]['errors']}),
-                   'front_safe': fsafe, 'leaves': leaves}
+                   'front_complete': fcomplete, 'leaves': leaves}
         if c['k'] % 97 == 0:
-            chk.sample({'case': c['name'], 'desc': c['desc'], 'source': c['src'][:300], 'front_safe': fsafe, 'impl': impl[0], 'model': None if model is None else model[0:2] if model[0] == 'panic' else model[0]})
-        if fsafe is not None:
-            chk.count('front_safe' if fsafe else 'front_unsafe')
-            # the proved statement, re-checked on the extracted code: front_safe => no model panic (T = [] or parsable cfgs)
-            if fsafe and model[0] == 'panic':
-                chk.violation(f'theorem-{c["k"]}', payload, 'front_safe holds but the extracted model panics: Props/C07 main theorem vs extraction', no_input=True)
-            if not fsafe and model[0] != 'panic':
-                chk.count('front_unsafe_but_model_does_not_panic (domain is conservative)')
-            for ident, ls, kind, site in leaves:
-                if ls and kind == 'panic':
-                    chk.violation(f'theorem-leaf-{c["k"]}', payload, f'leaf_safe holds for {ident} but the model panics at {site}', no_input=True)
+            chk.sample({'case': c['name'], 'desc': c['desc'], 'source': c['src'][:300], 'front_complete': fcomplete, 'impl': impl[0], 'model': None if model is None else model[0:2] if model[0] == 'panic' else model[0]})
+        if model is not None and model[0] == 'panic':
+            # Props/C07.C07_front_end_never_panics_partial has no hypothesis: re-checked on the extracted code
+            chk.violation(f'theorem-{c["k"]}', payload, f'the extracted model of parser::parse panics at {model[1]}: Props/C07 main theorem vs extraction', no_input=True)
+        if fcomplete is not None:
+            chk.count('front_complete' if fcomplete else 'front_with_items_to_diagnose')
+            # C07_incomplete_leaf_is_error (hypothesis: the skip decision is the documented one - outright without --target-os)
+            for ident, lc, kind, site in leaves:
+                if kind == 'panic':
+                    chk.violation(f'theorem-leaf-{c["k"]}', payload, f'the extracted item parser panics on {ident} at {site}: Props/C07.C07_leaf_never_panics vs extraction', no_input=True)
+                elif not lc and kind != 'err' and not c['tos']:
+                    chk.violation(f'theorem-leaf-{c["k"]}', payload, f'leaf_complete is false for {ident} but the extracted model answers {kind}: C07_incomplete_leaf_is_error vs extraction', no_input=True)
+            # the same predicate judges the IMPLEMENTATION: every incomplete expected item must be reported as an error
+            if incomplete and not c['tos'] and impl[0] == 'ok':
+                nerr = 0 if impl[1] is None else len(impl[1]['errors'])
+                chk.count('front_items_to_diagnose', len(incomplete))
+                if nerr < len(incomplete):
+                    chk.violation(f'undiagnosed-{c["k"]}', payload, f'{len(incomplete)} annotated item(s) with a container lacking its type arguments / an empty tuple struct or variant '
+                                  f'({", ".join(l[0] for l in incomplete)}), but parser::parse reports only {nerr} error(s): not diagnosed')
         bad = impl[0] in ('panic', 'abort')
         if not bad:
             if model is None:
@@ -397,6 +405,8 @@ def run(chk):
         # every language for which the model predicts a back-end panic (Scala without a package panics on everything: rotation only)
         back_panic = [lk for lk, p in preds.items() if p and p[0] in ('panic', 'overflow') and p[2] == 'back' and lk != 'scala-nopkg']
         chosen = []
+        if c.get('expect'):      # witness of a finding fixed in /repo: every language configuration it speaks about
+            rot = [lk for lk, *_ in LANGS if c.get('langs') is None or lk in c['langs']]
         for lk in rot + back_panic:
             if lk not in chosen:
                 chosen.append(lk)
@@ -425,6 +435,15 @@ def run(chk):
             chk.count('cli_runs_with_full_timeout')
             if ob['cat'] == 'panic' and ob['thread'] != 'main' and ob['rc'] != 124:
                 corr.append(dict(payload, note='a worker-thread panic did not end in exit 124 under the full timeout'))
+        if c.get('expect') and not (lk == 'scala-nopkg' and c['expect'] == 'ok'):
+            # fixed finding: the witness must now PASS exactly as recorded (not merely as the model predicts)
+            chk.count('fixed_witness_runs')
+            if ob['cat'] != c['expect'] or (c['expect'] == 'diag' and (ob['rc'] != 1 or 'lib.rs' not in o['stderr'])):
+                chk.violation(name, dict(payload, fixed_finding=c['fixed'], expected=c['expect']),
+                              f'witness of the fixed finding {c["fixed"]}: expected {c["expect"]}'
+                              + (' (exit 1 with a diagnostic naming the file)' if c['expect'] == 'diag' else ' (exit 0 with output)')
+                              + f', observed {ob["cat"]} (exit {ob["rc"]}) at {ob["site"]}: regression')
+                continue
         if good_cli(ob):
             chk.count('cli_' + ob['cat'])
             if ob['cat'] == 'diag' and pred and pred[2] in ('parse_err', 'parse_errors') and 'lib.rs' not in o['stderr']:
@@ -710,17 +729,14 @@ def send_race(chk, sm, fail, quick):
                 chk.violation(f'race-{i}', payload, 'one file does not parse, but the run does not end with a diagnostic naming it')
             continue
         hits += 1
-        # the main thread's join of a panicked walker (ignore-*/src/walk.rs `handle.join().unwrap()`) is a consequence, not a site of its own
+        # C07-parse.rs:133-send-race is fixed in /repo (a send on the closed channel no longer unwraps): any panic / hang here is a regression.
+        # (the main thread's join of a panicked walker, ignore-*/src/walk.rs `handle.join().unwrap()`, is a consequence, not a site of its own)
         sites = sorted(set(p[1] for p in ob['panics'] if not re.search(r'/ignore-[^/]*/src/walk\.rs:', p[1])))
-        if ob['cat'] == 'panic' and sites and all(s in ('parse.rs:133', 'parse.rs:138') for s in sites):
-            fail(f'race-{i}', payload, f'send on a closed channel: panic at {sites} (exit {ob["rc"]})', 'C07-parse.rs:133-send-race')
-        else:
-            fail(f'race-{i}', payload, f'{ob["cat"]} at {sites} (exit {ob["rc"]})')
+        fail(f'race-{i}', payload, f'{ob["cat"]} at {sites} (exit {ob["rc"]}) with one unparsable file among 200 good ones')
     chk.nontrivial.add(('race', 'one unparsable among 200'))
     chk.count('cli_race_panics', hits)
     chk.sample({'case': 'send race', 'runs': n, 'panicked_or_hung': hits})
-    if hits == 0:
-        chk.notes.append(f'the collector send race did not reproduce in {n} runs (schedule dependent)')
+    chk.notes.append(f'collector send race (fixed finding C07-parse.rs:133-send-race): {n - hits} of {n} runs ended with the diagnostic naming the unparsable file')
 
 
 def shared_graphs(chk, sm, fail, quick):
@@ -794,7 +810,7 @@ def replay(chk, path):
         print('model  parse_file     :', str(r['model'])[:600])
         if r['ast']:
             a = vf.impl([{'cmd': 'ast', 'src': d['source']}])[0]
-            print('front_safe, leaves    :', vf.model([f'(c07 {a["ok"]} {a["tstrs"]} {Lst(tos, S)})'])[0])
+            print('front_complete, leaves:', vf.model([f'(c07 {a["ok"]} {a["tstrs"]} {Lst(tos, S)})'])[0])
             if d.get('lang'):
                 lk = d['lang']
                 print('model  gen_src        :', str(back.model_canon(vf.model([f'(gen_src {LANG[lk][1]} {back.cfg_sx(LANG[lk][4])} {a["ok"]} {a["tstrs"]} {Lst(tos, S)})'])[0]))[:300])
